@@ -78,13 +78,16 @@ static int run_case(parsec_context_t *parsec, const cfg_t *c, char *err, size_t 
         if (mx[i] > allmax) allmax = mx[i];
     }
     if (!bad && rc_cw != 0) { bad = 1; snprintf(err, errlen, "(a) parsec_context_wait returned %d", rc_cw); }
-    for (int i = 0; i + 1 < c->n && !bad; i++)
-        if (!(mx[i] < mn[i + 1])) { bad = 1; snprintf(err, errlen, "(a) serial order broken: a task of pool %d entered at stamp %ld, before the last task of pool %d left at stamp %ld", i + 1, mn[i + 1], i, mx[i]); }
+    long runmax = 0; int runpool = 0;      /* latest exit among pools 0..i (a pool may be empty: leg "empty") */
+    for (int i = 0; i + 1 < c->n && !bad; i++) {
+        if (mx[i] > runmax) { runmax = mx[i]; runpool = i; }
+        if (!(runmax < mn[i + 1])) { bad = 1; snprintf(err, errlen, "(a) serial order broken: a task of pool %d entered at stamp %ld, before the last task of pool %d left at stamp %ld", i + 1, mn[i + 1], runpool, runmax); }
+    }
     if (!bad && allmax > r_cw) { bad = 1; snprintf(err, errlen, "(a) a task finished (stamp %ld) after parsec_context_wait returned (stamp %ld)", allmax, r_cw); }
     int bbad = 0; char berr[512] = "";
     if (!bad) {
         if (cb_count != 1) { bbad = 1; snprintf(berr, sizeof(berr), "(b) compound completion callback ran %d times", cb_count); }
-        else if (cb_stamp < mx[c->n - 1]) { bbad = 1; snprintf(berr, sizeof(berr), "(b) compound completion callback ran at stamp %ld%s, before the last task of the last pool left (stamp %ld)", cb_stamp, cb_in_add ? " (inside parsec_context_add_taskpool of the compound)" : "", mx[c->n - 1]); }
+        else if (cb_stamp < allmax) { bbad = 1; snprintf(berr, sizeof(berr), "(b) compound completion callback ran at stamp %ld%s, before the last task of the last pool left (stamp %ld)", cb_stamp, cb_in_add ? " (inside parsec_context_add_taskpool of the compound)" : "", allmax); }
         else if (cb_stamp > r_cw) { bbad = 1; snprintf(berr, sizeof(berr), "(b) compound completion callback ran after parsec_context_wait returned"); }
         if (!bbad && c->mode == 2 && (rc_tw < 0 || r_tw < allmax)) { bbad = 1; snprintf(berr, sizeof(berr), "(b) parsec_taskpool_wait(compound) returned %d at stamp %ld, before the last task left (stamp %ld)", rc_tw, r_tw, allmax); }
         if (bbad) { bad = 1; snprintf(err, errlen, "%s", berr); }
@@ -171,6 +174,24 @@ static void leg_orders(int slice, int nslices, void *arg_)
                 if (wr_leg->violations >= 3) goto out;
             }
         }
+    } else if (arg->bounded == 2) {
+        /* leg "empty": member pools with an EMPTY execution space (W = 0): such a pool terminates inside the
+         * parsec_context_add_taskpool that enables it, so its completion callback (which enables the next member) runs
+         * NESTED in the previous member's callback.  Every assignment of {empty, 1x1, 2x1} with at least one empty pool. */
+        static const int ES[][2] = { {0, 1}, {1, 1}, {2, 1} };
+        for (int n = 2; n <= 4; n++) {
+            int tot = 1; for (int i = 0; i < n; i++) tot *= 3;
+            for (int a = 0; a < tot; a++) {
+                int x = a, nempty = 0; for (int i = 0; i < n; i++) { c.W[i] = ES[x % 3][0]; c.L[i] = ES[x % 3][1]; if (!c.W[i]) nempty++; x /= 3; }
+                if (!nempty) continue;
+                for (int mode = 0; mode < 3; mode++) {
+                    if ((idx++ % nslices) != slice) continue;
+                    c.n = n; c.mode = mode;
+                    explore_cfg(parsec, ex, &c, -1);
+                    if (wr_leg->violations >= 3) goto out;
+                }
+            }
+        }
     } else {
         static const int NS[] = { 5, 16, 17, 20 };
         for (int ni = 0; ni < 4; ni++) for (int sh = 0; sh < 3; sh++) for (int mode = 0; mode < 3; mode++) {
@@ -252,10 +273,11 @@ int main(int argc, char **argv)
         wr_run_legs("replay", 1, leg_replay, cas, 60, NULL);
         return wr_finish();
     }
-    leg_arg_t a1 = { 0, -1 }, a2 = { 1, wr_thorough ? 2 : 1 };
+    leg_arg_t a1 = { 0, -1 }, a2 = { 1, wr_thorough ? 2 : 1 }, a3 = { 2, -1 };
     /* deciding legs first (70% of the time budget), free-running configuration box last */
     double full_deadline = wr_deadline;
     if (full_deadline > 0 && !only) wr_deadline = full_deadline - 0.3 * (full_deadline - wr_now());
+    if (!only || !strcmp(only, "empty")) wr_run_legs("empty", jobs > 6 ? 6 : jobs, leg_orders, &a3, 600, aux);
     if (!only || !strcmp(only, "bounded")) wr_run_legs("bounded", jobs > 6 ? 6 : jobs, leg_orders, &a2, 600, aux);
     if (!only || !strcmp(only, "orders")) wr_run_legs("orders", jobs, leg_orders, &a1, 600, aux);
     wr_deadline = full_deadline; if (full_deadline > 0 && full_deadline < wr_now() + 15) wr_deadline = wr_now() + 15;   /* the box always gets a minimum share */
